@@ -513,6 +513,19 @@ func v4accExecHist(args []string) string {
 			outs = append(outs, a.run(p, def))
 		case "R":
 			reg.restore()
+		case "c":
+			// label sets: toggle the ASCII letter case of name i in place
+			if lr, ok := reg.(*v4accRegLabels); ok {
+				if i := atoi(f[1]); i < len(lr.x.Labels) {
+					b := []byte(lr.x.Labels[i])
+					for k, ch := range b {
+						if (ch >= 'A' && ch <= 'Z') || (ch >= 'a' && ch <= 'z') {
+							b[k] = ch ^ 32
+						}
+					}
+					lr.x.Labels[i] = string(b)
+				}
+			}
 		case "s":
 			g := strings.SplitN(f[1], ":", 2)
 			reg.set(atoi(g[0]), g[1])
